@@ -18,6 +18,9 @@ fn forms() -> Vec<(&'static str, [f64; 6])> {
         ("alternating", [1.0, -1.0, 1.0, -1.0, 1.0, -1.0]),
         ("mixed", [1.0, 0.5, -0.25, 0.125, 1.0, -1.0]),
         ("integral of 2+3L+4L^2+5L^3+6L^4", [2.0, -2.0, 0.5, -1.1666666666666665, 0.9583333333333334, -121.0]),
+        ("u = 24*c4 (integral of a cubic in ln v)", [0.1, -2.0, 0.5, -1.5, 0.25, 6.0]),
+        ("u = 24*c4, only the tail pair", [0.0, 0.0, 0.0, 0.0, -0.125, -3.0]),
+        ("u = 24*c4 = c3*6", [2.0, 1.0, 1.0, 4.0, 1.0, 24.0]),
         ("u 20 orders below c", [0.0, 1.0, 1.0, 1.0, 1.0, 1e-20]),
         ("u 20 orders below c4=1e3", [0.0, 0.0, 0.0, 0.0, 1e3, -1e-17]),
         ("c 20 orders below u", [0.0, 1e-20, -1e-20, 1e-20, 1e-20, 1.0]),
@@ -152,7 +155,7 @@ pub fn check(thorough: bool, seed: u64) -> Check {
             one_v(v, false, cx)
         }),
         classes: vec![("near v=1", true), ("near switch x=-1.71", true), ("near switch x=1.72", true), ("series side of a switch", true), ("closed-form side of a switch", true)],
-        bounds: json!({"arguments": format!("every float within +-{radius} ulps of v=1, of v=e^1.71 and of v=e^-1.72 (both sides of both switch points)"), "forms": "16 parameter sets (six unit forms, all ones, alternating, mixed, mixed*2^-60, mixed*2^40, a real integral, four sets with parameters 20 orders of magnitude apart)"}),
+        bounds: json!({"arguments": format!("every float within +-{radius} ulps of v=1, of v=e^1.71 and of v=e^-1.72 (both sides of both switch points)"), "forms": "19 parameter sets (three with u = 24*c4, six unit forms, all ones, alternating, mixed, mixed*2^-60, mixed*2^40, a real integral, four sets with parameters 20 orders of magnitude apart)"}),
     };
     let n_grid: usize = if thorough { 2_000_000 } else { 50_000 };
     let gchunk = 500usize;
@@ -217,7 +220,7 @@ pub fn check(thorough: bool, seed: u64) -> Check {
     };
     Check {
         id: "C10",
-        rule: "each leaf is one argument v evaluated by the real IntOfLogPoly4::evaluate for all sixteen parameter sets and compared with the exact value (x = -ln v as f64, R(x) from a >200-bit integer series); every float of the stated neighbourhoods, every grid point and every binade is enumerated; all leaves are non-trivial (distinct v)".into(),
+        rule: "each leaf is one argument v evaluated by the real IntOfLogPoly4::evaluate for all nineteen parameter sets and compared with the exact value (x = -ln v as f64, R(x) from a >200-bit integer series); every float of the stated neighbourhoods, every grid point and every binade is enumerated; all leaves are non-trivial (distinct v)".into(),
         assumptions: vec!["f64::ln within 1 ulp: the oracle uses the same f64 x = -ln v as the subject (its effect on the stated formula is <= 1.2e-13 of the term magnitudes)".into(),
                           "one subnormal ulp (2^-1074) of absolute slack for gradual underflow".into()],
         phases: vec![near, grid, bin, sub],
